@@ -1,0 +1,204 @@
+// Verification shim. Only compiled with `--cfg clockbound_verif`; never part of a normal build.
+//
+// `atomic` is a drop-in for the subset of `std::sync::atomic` used by this crate. Every access to
+// an atomic, and every 8-byte cell of the record copy, is first reported to a thread-local
+// controller installed by the verification harness. The controller may park the calling thread
+// (scheduling point), supply the value a load returns (simulated memory) or unwind (simulated
+// crash). Without a controller everything is a plain pass-through to the real operation.
+
+use std::cell::RefCell;
+
+pub mod atomic {
+    use std::sync::atomic as real;
+    pub use std::sync::atomic::Ordering;
+
+    use super::{on_access, Access, Reply};
+
+    #[repr(transparent)]
+    #[derive(Debug)]
+    pub struct AtomicU16(real::AtomicU16);
+
+    #[repr(transparent)]
+    #[derive(Debug)]
+    pub struct AtomicU32(real::AtomicU32);
+
+    impl AtomicU16 {
+        pub fn new(v: u16) -> Self {
+            AtomicU16(real::AtomicU16::new(v))
+        }
+
+        pub fn load(&self, ord: Ordering) -> u16 {
+            let addr = self as *const _ as usize;
+            match on_access(&Access::Load16 { addr, ord }) {
+                Reply::Value(v) => v as u16,
+                _ => self.0.load(ord),
+            }
+        }
+
+        pub fn store(&self, val: u16, ord: Ordering) {
+            let addr = self as *const _ as usize;
+            match on_access(&Access::Store16 { addr, ord, val }) {
+                Reply::Skip => (),
+                _ => self.0.store(val, ord),
+            }
+        }
+
+        pub fn into_inner(self) -> u16 {
+            self.0.into_inner()
+        }
+    }
+
+    impl AtomicU32 {
+        pub fn new(v: u32) -> Self {
+            AtomicU32(real::AtomicU32::new(v))
+        }
+
+        pub fn load(&self, ord: Ordering) -> u32 {
+            self.0.load(ord)
+        }
+
+        pub fn store(&self, val: u32, ord: Ordering) {
+            self.0.store(val, ord)
+        }
+
+        pub fn into_inner(self) -> u32 {
+            self.0.into_inner()
+        }
+    }
+
+    pub fn fence(ord: Ordering) {
+        on_access(&Access::Fence { ord });
+        real::fence(ord)
+    }
+}
+
+/// Size of one cell of the record copy as seen by the controller.
+pub const CELL: usize = 8;
+
+#[derive(Debug, Clone)]
+pub enum Access {
+    Load16 { addr: usize, ord: atomic::Ordering },
+    Store16 { addr: usize, ord: atomic::Ordering, val: u16 },
+    Fence { ord: atomic::Ordering },
+    /// The writer is about to store `bytes` into cell `idx` of the record at `addr`.
+    CellWrite { addr: usize, idx: usize, bytes: [u8; CELL] },
+    /// The reader is about to load cell `idx` of the record at `addr`.
+    CellRead { addr: usize, idx: usize },
+}
+
+#[derive(Debug, Clone)]
+pub enum Reply {
+    /// Perform the real operation.
+    Pass,
+    /// Loads: return this value instead of reading memory.
+    Value(u64),
+    /// Cell loads: return these bytes instead of reading memory.
+    Bytes([u8; CELL]),
+    /// Stores: do not touch the real memory.
+    Skip,
+}
+
+pub type Controller = Box<dyn FnMut(&Access) -> Reply>;
+
+thread_local! {
+    static CTRL: RefCell<Option<Controller>> = RefCell::new(None);
+    static ORDER: RefCell<Vec<usize>> = RefCell::new(Vec::new());
+}
+
+/// Install (or remove) the controller of the calling thread.
+pub fn install(c: Option<Controller>) {
+    CTRL.with(|k| *k.borrow_mut() = c);
+}
+
+/// Order in which the cells of a record are copied while a controller is installed
+/// (empty = ascending).
+pub fn set_cell_order(order: Vec<usize>) {
+    ORDER.with(|o| *o.borrow_mut() = order);
+}
+
+fn installed() -> bool {
+    CTRL.with(|k| k.borrow().is_some())
+}
+
+pub fn on_access(a: &Access) -> Reply {
+    // Take the controller out while it runs so that it may itself touch hooked atomics.
+    let c = CTRL.with(|k| k.borrow_mut().take());
+    match c {
+        Some(mut c) => {
+            let r = c(a);
+            CTRL.with(|k| {
+                let mut slot = k.borrow_mut();
+                if slot.is_none() {
+                    *slot = Some(c);
+                }
+            });
+            r
+        }
+        None => Reply::Pass,
+    }
+}
+
+fn cell_order(n: usize) -> Vec<usize> {
+    let o = ORDER.with(|o| o.borrow().clone());
+    if o.len() == n {
+        o
+    } else {
+        (0..n).collect()
+    }
+}
+
+/// Called right before the writer's plain store of the whole record. With a controller installed
+/// the record is stored cell by cell, each store announced first; the caller's own store that
+/// follows then rewrites the same bytes.
+pub fn data_write<T: Copy>(dst: *mut T, v: &T) {
+    if !installed() {
+        return;
+    }
+    let n = std::mem::size_of::<T>() / CELL;
+    let src = v as *const T as *const u8;
+    for idx in cell_order(n) {
+        let mut bytes = [0u8; CELL];
+        // SAFETY: `v` is a valid T and idx * CELL + CELL <= size_of::<T>().
+        unsafe { std::ptr::copy_nonoverlapping(src.add(idx * CELL), bytes.as_mut_ptr(), CELL) };
+        match on_access(&Access::CellWrite { addr: dst as usize, idx, bytes }) {
+            Reply::Skip => (),
+            _ => {
+                // SAFETY: `dst` points to a writable T (same requirement as the caller's store).
+                unsafe {
+                    (dst as *mut u8)
+                        .add(idx * CELL)
+                        .cast::<u64>()
+                        .write_volatile(u64::from_ne_bytes(bytes))
+                };
+            }
+        }
+    }
+}
+
+/// Called right after the reader's plain load of the whole record. With a controller installed
+/// the value just loaded is discarded and the record is loaded again cell by cell, each load
+/// announced first. Without a controller `v` is returned unchanged.
+pub fn data_read<T: Copy>(src: *const T, v: T) -> T {
+    if !installed() {
+        return v;
+    }
+    let n = std::mem::size_of::<T>() / CELL;
+    let mut out = v;
+    let dst = &mut out as *mut T as *mut u8;
+    for idx in cell_order(n) {
+        let bytes = match on_access(&Access::CellRead { addr: src as usize, idx }) {
+            Reply::Bytes(b) => b,
+            // SAFETY: `src` points to a readable T (same requirement as the caller's load).
+            _ => unsafe {
+                (src as *const u8)
+                    .add(idx * CELL)
+                    .cast::<u64>()
+                    .read_volatile()
+                    .to_ne_bytes()
+            },
+        };
+        // SAFETY: idx * CELL + CELL <= size_of::<T>().
+        unsafe { std::ptr::copy_nonoverlapping(bytes.as_ptr(), dst.add(idx * CELL), CELL) };
+    }
+    out
+}
